@@ -277,9 +277,21 @@ def zombie_profile(rng, rec):
     if kind == "ERR_BEFORE" and knobs["keys"][fk]["scheme"] != "sim":
         kind = "EMFILE"
     seq = [first]
-    for j in range(rng.randint(1, 3)):
-        sub = keys if rng.random() < 0.6 else rng.sample(keys, rng.randint(1, m))
-        seq.append({"id": nid + 1 + j, "op": "GET", "keys": list(sub), "dt": rng.choice([0, 0, 1000])})
+    for j in range(rng.randint(1, 4)):
+        what = wchoice(rng, [(55, "retry"), (15, "part"), (12, "remove"), (8, "purge"), (10, "others")])
+        dt = rng.choice([0, 0, 1000])
+        if what == "retry":
+            seq.append({"id": nid + 1 + j, "op": "GET", "keys": list(keys), "dt": dt})
+        elif what == "part":
+            seq.append({"id": nid + 1 + j, "op": "GET", "keys": rng.sample(keys, rng.randint(1, m)), "dt": dt})
+        elif what == "remove":
+            # the caller removes a key the zombie may still be about to publish
+            seq.append({"id": nid + 1 + j, "op": "REMOVE", "key": rng.choice(keys[5:] or keys), "dt": dt})
+        elif what == "purge":
+            seq.append({"id": nid + 1 + j, "op": "PURGE", "dt": dt})
+        else:
+            rest = [k for k in range(K) if k not in keys] or keys
+            seq.append({"id": nid + 1 + j, "op": "GET", "keys": rng.sample(rest, min(len(rest), rng.randint(1, 3))), "dt": dt})
     rec["ops"] = ops[:pos] + seq + ops[pos:]
     rec["faults"].append(make_fault(rng, nid, kind, fk))
     if rng.random() < 0.4:
